@@ -8,6 +8,7 @@ import re
 import vlib
 
 KINDS = {
+    "C04": {"not_idle", "unaccounted", "waiters_not_zero_at_idle"},
     "C01": {"commit_unacked", "frontier"},
     "C02": {"dup_commit", "order", "offset_order", "commit_of_dropped", "unaccounted", "dropped_and_committed",
             "drop_of_finished", "not_idle"},
